@@ -28,7 +28,7 @@ REAL_VS_STUB = {'real': ['kyupy.circuit.Circuit: copy, __getstate__/__setstate__
 ASSUMPTIONS = ['the set of cell names every library must offer is the pinned tree\'s (dsim/data/libcells.json, 1026 names); additional cells are fine', 'an instance input pin is left unconnected only where "reads 0" and "not connected" give the cell the same function (otherwise the function before resolving is ambiguous)',
                'the function of a sequential library instance is defined through its implementation: state = the state element inside, result = value at that element\'s data pin',
                'one library per case; resolve_tlib_cells is called with the library the instances were taken from']
-EXPECTED_PROBES = ['spare_cells', 'shipped_netlist', 'fork_as_port', 'library_simulation_compared', 'manual_buffer_inserted', 'implementation_reused_after_edit', 'nested_multi_output_impl', 'resolve_step', 'substitute_step', 'restore_step', 'elim_step', 'unconnected_input_pin', 'unconnected_output_pin', 'sequential_cell', 'multi_output_cell', 'cell_without_output', 'ignored_pin_cell']
+EXPECTED_PROBES = ['earlier_output_pin_left_open', 'spare_cells', 'shipped_netlist', 'fork_as_port', 'library_simulation_compared', 'manual_buffer_inserted', 'implementation_reused_after_edit', 'nested_multi_output_impl', 'resolve_step', 'substitute_step', 'restore_step', 'elim_step', 'unconnected_input_pin', 'unconnected_output_pin', 'sequential_cell', 'multi_output_cell', 'cell_without_output', 'ignored_pin_cell']
 
 LIBS = ['GSC180', 'NANGATE', 'NANGATE_ZN', 'SAED32', 'SAED90']
 HIDDEN_LATCH = ('DLH_X', 'DLL_X', 'TLAT_X1', 'TLATX1', 'TLATSRX1')
@@ -401,6 +401,17 @@ def execute(case):
                         impl.io_nodes[a_], impl.io_nodes[b_] = impl.io_nodes[b_], impl.io_nodes[a_]
                     text = 'the implementation object of an earlier step, two ports swapped'
                     res.probe('implementation_reused_after_edit')
+            if (st[1] // 3) % 4 == 0 and len(target.outs) == 1 and target.outs[0] is not None:
+                # the instance uses a LATER output pin of the implementation and leaves the earlier ones open (as Q open / QN used, or an earlier port computed from a later one)
+                n_impl_out = cell_pins(impl)[1]
+                if n_impl_out > 1:
+                    from kyupy.circuit import Line
+                    pin = 1 + (st[1] // 11) % (n_impl_out - 1)
+                    l0 = target.outs[0]
+                    rd = (l0.reader, l0.reader_pin)
+                    l0.remove()
+                    Line(c, (target, pin), rd)
+                    res.probe('earlier_output_pin_left_open')
             last_impl = impl
             overrides = {target.name: impl}
             did = f'substitute({target.name}:{target.kind}, {text[:70]})'
